@@ -6,7 +6,7 @@
    C10_lifetime_bridge carry these statements to the slot-level machine on every well-formed trace. *)
 From Coq Require Import List ZArith Bool.
 From RxVerif Require Import Mux.Val Mux.Sim Mux.SimExt Mux.Ops Mux.Syntax Mux.ConfineProofs Mux.LocalSemProofs
-  Mux.MasterProofs Mux.OpsSpecProofs.
+  Mux.MasterProofs Mux.OpsSpecProofs Mux.BatchProofs.
 Import ListNotations.
 
 (* bridge: for every pipeline P, every well-formed trace t and every lifetime of a key k inside it,
@@ -80,10 +80,32 @@ Theorem C10_start_with : forall l xs,
 Proof. exact start_with_spec. Qed.
 Print Assumptions C10_start_with.
 
+(* batch(n), as rxsci defines it (scan with the (list, full) accumulator and its terminator, filter, map):
+   consecutive chunks of exactly n items plus one final non-empty shorter chunk; concatenation = input *)
+Theorem C10_batch : forall (n : nat), 1 <= n -> forall xs,
+  items_of item (pipe_l (batch_ops n)) (its xs) = map (fun ch => It (VList ch)) (bchunks n [] xs).
+Proof. exact batch_items. Qed.
+Print Assumptions C10_batch.
+Theorem C10_batch_chunks : forall (n : nat), 1 <= n -> forall xs,
+  concat (bchunks n [] xs) = xs /\
+  exists full last_, bchunks n [] xs = full ++ last_ /\ Forall (fun c => length c = n) full /\
+    (last_ = [] \/ exists c, last_ = [c] /\ 1 <= length c < n).
+Proof. exact batch_chunks_shape. Qed.
+Print Assumptions C10_batch_chunks.
+(* distinct_until_changed, as rxsci defines it (scan with the (emit, item, key, has_key) accumulator, filter,
+   map): one item per run of == keys *)
+Theorem C10_distinct_until_changed : forall (km : fn) (kf : val -> val), (forall x, apply1 km x = Ok (kf x)) -> forall xs,
+  items_of item (pipe_l (duc_ops km)) (its xs) = its (duc_spec kf None xs).
+Proof. exact duc_items. Qed.
+Print Assumptions C10_distinct_until_changed.
+
 (* the local machines above are the ones `den` assigns to the operators *)
 Example C10_den_take n : bl item (den (OTake n)) = L_take n. Proof. reflexivity. Qed.
 Example C10_den_lag n : bl item (den (OLag n)) = L_lag n. Proof. reflexivity. Qed.
 Example C10_den_distinct km : bl item (den (ODistinct km)) = L_distinct km. Proof. reflexivity. Qed.
+Example C10_example_batch :
+  items_of item (pipe_l (batch_ops 2)) (its [VInt 1; VInt 2; VInt 3]) = [It (VList [VInt 1; VInt 2]); It (VList [VInt 3])].
+Proof. vm_compute. reflexivity. Qed.
 Example C10_example_lag :
   steps_of (L_lagn 2) [VInt 1; VInt 2; VInt 3; VInt 4]
   = [[It (VTuple [VInt 1; VInt 1])]; [It (VTuple [VInt 1; VInt 2])]; [It (VTuple [VInt 1; VInt 3])]; [It (VTuple [VInt 2; VInt 4])]].
